@@ -524,20 +524,21 @@ def c14_nested(order: bool, a0: bool, a1: bool, a2: bool, b0: bool, b1: bool, b2
 
 
 # ---- skip_unknown travels through includes, for every entry point ---------------------------------------------
-SKIPS = [None, True, ['vw.nosuch'], ('vw.nosuch',)]
+SKIPS = [None, True, ['vw.nosuch'], ('vw.nosuch',), ['vw.other_unknown'], ('vw.other_unknown', 'vw.dflt')]
 BADS = ['vw.nosuch.x = 1\n', 'import no_such_mod_c14\n']
 
 
 def c14_skip(entry: int, depth: int, what: int, skip: int) -> bool:
   """
-  pre: 0 <= entry < 4 and 0 <= depth < 3 and 0 <= what < 2 and 0 <= skip < 4
+  pre: 0 <= entry < 4 and 0 <= depth < 3 and 0 <= what < 2 and 0 <= skip < 6
   """
   world.fresh()
   entry = rt.pick(entry, 4)   # 0 multi-file entry (chain hangs off a file), 1 multi-file entry (off the bindings),
   #                             2 parse_config_file, 3 parse_config
   depth = rt.pick(depth, 3)   # include depth of the text holding the unknown name (0 = the top-level text)
   what = rt.pick(what, 2)     # 0 binding of an unknown configurable, 1 import of an unknown module
-  skip = rt.pick(skip, 4)     # 0 skip_unknown not passed, 1 True, 2 list naming it, 3 tuple naming it
+  skip = rt.pick(skip, 6)     # 0 skip_unknown not passed, 1 True, 2 list naming it, 3 tuple naming it,
+  #                             4 / 5 a list / tuple that names OTHER configurables only (round e seed C14-e)
   with rt.native():
     rt.sig(('skip', entry, depth, what, skip))
     text = {}
@@ -564,11 +565,14 @@ def c14_skip(entry: int, depth: int, what: int, skip: int) -> bool:
         return rt.no('unexpected kind of error %r' % (exc,))
       if entry < 2 and gin.config_is_locked():
         return rt.no('finalized although parsing failed')
-      if skip == 0 or (what == 1 and skip >= 2):
+      if skip == 0 or (what == 1 and skip >= 2) or skip >= 4:
         return True       # default: an error.  (A LIST of configurable names vs. an unknown import: either way.)
+      #                     A list that does not name the unknown configurable: an error, as in the flattened text.
       return rt.no('skip_unknown was passed, the unknown name still raised %r' % (exc,))
     if skip == 0:
       return rt.no('unknown name accepted without skip_unknown')
+    if skip >= 4 and what == 0:
+      return rt.no('an unknown configurable that the skip list does not name was accepted (include depth %d)' % depth)
     want = {('', 'vw.dflt'): {'a': depth + 1}, ('', 'vw.kws'): {'l%d' % k: 1 for k in range(depth + 1)}}
     if entry == 0:
       want[('', 'vw.dflt')]['b'] = 5
